@@ -44,7 +44,10 @@ type authEvent struct {
 	Tok       *tokSpec `json:"token,omitempty"`
 	Carriers  []string `json:"carriers,omitempty"` // header, query, cookie, lower_bearer, basic
 	Entry     string   `json:"entry,omitempty"`    // http | ws
+	Method    string   `json:"method,omitempty"`   // HTTP method of the request ("" = GET)
 }
+
+var authMethods = []string{"GET", "GET", "POST", "POST", "OPTIONS", "OPTIONS", "HEAD", "PUT", "DELETE", "PATCH", "TRACE", "get", "PROPFIND"}
 
 func b64(b []byte) string { return base64.RawURLEncoding.EncodeToString(b) }
 
@@ -232,7 +235,12 @@ func runAuth(evs []authEvent) (viol string, ar authRun) {
 		// the request
 		u := "http://relay.example/"
 		q := url.Values{}
-		req := httptest.NewRequest(http.MethodGet, u, nil)
+		method := ev.Method
+		if method == "" {
+			method = http.MethodGet
+		}
+		req := httptest.NewRequest(method, u, nil)
+		ar.labels["method_"+method]++
 		carried := false
 		for _, c := range ev.Carriers {
 			switch c {
@@ -286,7 +294,7 @@ func runAuth(evs []authEvent) (viol string, ar authRun) {
 			rec := httptest.NewRecorder()
 			protected(rec, req)
 			if entered != admit || (!admit && rec.Code != http.StatusUnauthorized) {
-				return fmt.Sprintf("event %d: protected handler entered=%v status=%d, the reference %s this token (secret %q, token signed with %q, sound=%v, carriers=%v, spec=%+v)", i, entered, rec.Code, map[bool]string{true: "admits", false: "rejects"}[admit], secret, key, sound, ev.Carriers, *ev.Tok), ar
+				return fmt.Sprintf("event %d: protected handler entered=%v status=%d, the reference %s this token (method %s, secret %q, token signed with %q, sound=%v, carriers=%v, spec=%+v)", i, entered, rec.Code, map[bool]string{true: "admits", false: "rejects"}[admit], method, secret, key, sound, ev.Carriers, *ev.Tok), ar
 			}
 		}
 	}
@@ -294,7 +302,7 @@ func runAuth(evs []authEvent) (viol string, ar authRun) {
 }
 
 func TestC15Auth(t *testing.T) {
-	col := NewCollector("C15", "inproc", "stateful sequences of 1-12 events against one hdsclient.Client: the discovery service issues a secret (none/A/B - unregistered, registered, rotated) or a request presents a token through VerifyAuthTokenHandler or the WebSocket handshake callback; tokens are built by the reference itself: HS256/384/512, alg none, foreign/unknown alg names, header/MAC mismatch, signed with the current, another or the empty secret, exp/iat/nbf at -3600,-30,+5,+30,+3600 s or absent, one of 12 tamperings (bit flipped in the MAC, signature removed/truncated, payload or header edited without re-signing, 2 or 4 segments, non-base64, padding, non-JSON payload, garbage, empty), or a token string presented earlier again (before/after rotation); carriers: Authorization Bearer, ?access_token=, cookie, and unrecognised ones, alone or combined; the inner handler must run / the callback return nil exactly when the token is by construction sound for the CURRENT secret, else 401 and not entered; non-trivial = distinct sequence with a token that differs from an admissible one in exactly one respect or an admissible token in a non-header carrier")
+	col := NewCollector("C15", "inproc", "stateful sequences of 1-12 events against one hdsclient.Client: the discovery service issues a secret (none/A/B - unregistered, registered, rotated) or a request presents a token through VerifyAuthTokenHandler or the WebSocket handshake callback; tokens are built by the reference itself: HS256/384/512, alg none, foreign/unknown alg names, header/MAC mismatch, signed with the current, another or the empty secret, exp/iat/nbf at -3600,-30,+5,+30,+3600 s or absent, one of 12 tamperings (bit flipped in the MAC, signature removed/truncated, payload or header edited without re-signing, 2 or 4 segments, non-base64, padding, non-JSON payload, garbage, empty), or a token string presented earlier again (before/after rotation); carriers: Authorization Bearer, ?access_token=, cookie, and unrecognised ones, alone or combined; HTTP method GET/POST/OPTIONS/HEAD/PUT/DELETE/PATCH/TRACE/unknown; the inner handler must run / the callback return nil exactly when the token is by construction sound for the CURRENT secret, else 401 and not entered; non-trivial = distinct sequence with a token that differs from an admissible one in exactly one respect or an admissible token in a non-header carrier")
 	t.Cleanup(col.Write)
 	if rp := os.Getenv("VERIF_REPLAY"); rp != "" {
 		var evs []authEvent
@@ -341,7 +349,7 @@ func TestC15Auth(t *testing.T) {
 			default:
 				carriers = nil
 			}
-			evs = append(evs, authEvent{Tok: &spec, Carriers: carriers, Entry: pick(rt, "entry", []string{"http", "ws"})})
+			evs = append(evs, authEvent{Tok: &spec, Carriers: carriers, Entry: pick(rt, "entry", []string{"http", "ws"}), Method: pick(rt, "method", authMethods)})
 		}
 		v, ar := runAuth(evs)
 		b, _ := json.Marshal(evs)
